@@ -85,18 +85,21 @@ template <class CL> static void apply_add(CL& c, const AbsAdd& a) {
   }
 }
 
-template <class CL> static std::string exec_ser(CL& c, bool tree, int ct, int fr, bool* nonempty = nullptr) {
+// the caller's result variables: a used object keeps writing into the same ones (the natural way to run several
+// operations in sequence), the fresh object gets new ones -- what is in a result variable before the call must not matter
+template <class CL> struct Res { typename Tr<CL>::PS closed, open, topen; typename Tr<CL>::Tree tr; };
+
+template <class CL> static std::string exec_ser(CL& c, bool tree, int ct, int fr, bool* nonempty = nullptr, Res<CL>* keep = nullptr) {
   std::ostringstream os;
+  Res<CL> local; Res<CL>& R = keep ? *keep : local;
   if (!tree) {
-    typename Tr<CL>::PS closed, open;
-    bool r = c.Execute((ClipType)ct, (FillRule)fr, closed, open);
-    os << "r=" << r << " C "; put(os, closed); os << " O "; put(os, open);
-    if (nonempty) *nonempty = !closed.empty() || !open.empty();
+    bool r = c.Execute((ClipType)ct, (FillRule)fr, R.closed, R.open);
+    os << "r=" << r << " C "; put(os, R.closed); os << " O "; put(os, R.open);
+    if (nonempty) *nonempty = !R.closed.empty() || !R.open.empty();
   } else {
-    typename Tr<CL>::Tree tr; typename Tr<CL>::PS open;
-    bool r = c.Execute((ClipType)ct, (FillRule)fr, tr, open);
-    os << "r=" << r << " T "; ser_tree(os, tr); os << " O "; put(os, open);
-    if (nonempty) *nonempty = tr.Count() > 0 || !open.empty();
+    bool r = c.Execute((ClipType)ct, (FillRule)fr, R.tr, R.topen);
+    os << "r=" << r << " T "; ser_tree(os, R.tr); os << " O "; put(os, R.topen);
+    if (nonempty) *nonempty = R.tr.Count() > 0 || !R.topen.empty();
   }
   os << " e=" << c.ErrorCode();
   return os.str();
@@ -105,7 +108,7 @@ template <class CL> static std::string exec_ser(CL& c, bool tree, int ct, int fr
 static uint64_t fnv(uint64_t h, const std::string& s) { for (unsigned char ch : s) { h ^= ch; h *= 1099511628211ULL; } return h; }
 
 template <class CL> static void run_history(Toks& t, std::ostream& os) {
-  std::unique_ptr<CL> used[4]; AbsState abs[4];
+  std::unique_ptr<CL> used[4]; AbsState abs[4]; Res<CL> res[4];
   int cur = 0; int nexec = 0, nne = 0; uint64_t h = 1469598103934665603ULL; int idx = 0;
   while (t.more()) {
     std::string tok = t.next(); char k = tok[0];
@@ -119,7 +122,7 @@ template <class CL> static void run_history(Toks& t, std::ostream& os) {
       case 'L': c.Clear(); a.adds.clear(); break;
       case 'X': case 'T': {
         int ct = tok[1] - '0', fr = tok[2] - '0';
-        bool ne = false; std::string su = exec_ser(c, k == 'T', ct, fr, &ne); nne += ne;
+        bool ne = false; std::string su = exec_ser(c, k == 'T', ct, fr, &ne, &res[cur]); nne += ne;
         std::unique_ptr<CL> f(Tr<CL>::mk());
         f->PreserveCollinear(a.pc); f->ReverseSolution(a.rs);
         for (auto& ad : a.adds) apply_add(*f, ad);
